@@ -540,7 +540,7 @@ package mq
 //@   requires r != nil
 //@   requires uint(f.remainingLen) <= 268435455
 //@   let rl = old(int(f.remainingLen))
-//@   assigns $heap, $pos, $reads
+//@   assigns $heap, $pos, $reads, $rejected
 //@   ensures (result0 != nil) != (result1 != nil)                                                   #C04 #C08
 //@   ensures old($pos) <= $pos && $pos <= $N
 //@   ensures $N - old($pos) >= rl ==> $pos == old($pos) + rl                                        #C06 #C07
@@ -1101,3 +1101,94 @@ package mq
 
 //@ func (*Undefined).WriteTo
 //@   ensures $writes == old($writes) && result1 != nil && result0 == 0                      #C10
+
+// ---------------------------------------------------------------- rejection is never swallowed (C09)
+// $rejected counts the non-nil errors recorded in a parse buffer (field decoder refused, unknown identifier).
+
+//@ func (*Connect).UnmarshalBinary
+//@   assigns $rejected
+//@   ensures $rejected > old($rejected) ==> result != nil                                   #C09
+
+//@ func (*ConnAck).UnmarshalBinary
+//@   assigns $rejected
+//@   ensures $rejected > old($rejected) ==> result != nil                                   #C09
+
+//@ func (*Publish).UnmarshalBinary
+//@   assigns $rejected
+//@   ensures $rejected > old($rejected) ==> result != nil                                   #C09
+
+//@ func (*PubAck).UnmarshalBinary
+//@   assigns $rejected
+//@   ensures $rejected > old($rejected) ==> result != nil                                   #C09
+
+//@ func (*PubRec).UnmarshalBinary
+//@   assigns $rejected
+//@   ensures $rejected > old($rejected) ==> result != nil                                   #C09
+
+//@ func (*PubRel).UnmarshalBinary
+//@   assigns $rejected
+//@   ensures $rejected > old($rejected) ==> result != nil                                   #C09
+
+//@ func (*PubComp).UnmarshalBinary
+//@   assigns $rejected
+//@   ensures $rejected > old($rejected) ==> result != nil                                   #C09
+
+//@ func (*Subscribe).UnmarshalBinary
+//@   assigns $rejected
+//@   ensures $rejected > old($rejected) ==> result != nil                                   #C09
+//@   loop 0:
+//@     invariant $rejected > old($rejected) ==> b.err != nil                                #C09
+
+//@ func (*SubAck).UnmarshalBinary
+//@   assigns $rejected
+//@   ensures $rejected > old($rejected) ==> result != nil                                   #C09
+//@   loop 0:
+//@     invariant $rejected > old($rejected) ==> b.err != nil                                #C09
+
+//@ func (*Unsubscribe).UnmarshalBinary
+//@   assigns $rejected
+//@   ensures $rejected > old($rejected) ==> result != nil                                   #C09
+//@   loop 0:
+//@     invariant $rejected > old($rejected) ==> b.err != nil                                #C09
+
+//@ func (*UnsubAck).UnmarshalBinary
+//@   assigns $rejected
+//@   ensures $rejected > old($rejected) ==> result != nil                                   #C09
+//@   loop 0:
+//@     invariant $rejected > old($rejected) ==> b.err != nil                                #C09
+
+//@ func (*PingReq).UnmarshalBinary
+//@   assigns $rejected
+//@   ensures $rejected > old($rejected) ==> result != nil                                   #C09
+
+//@ func (*PingResp).UnmarshalBinary
+//@   assigns $rejected
+//@   ensures $rejected > old($rejected) ==> result != nil                                   #C09
+
+//@ func (*Disconnect).UnmarshalBinary
+//@   assigns $rejected
+//@   ensures $rejected > old($rejected) ==> result != nil                                   #C09
+
+//@ func (*Auth).UnmarshalBinary
+//@   assigns $rejected
+//@   ensures $rejected > old($rejected) ==> result != nil                                   #C09
+
+//@ func (*Undefined).UnmarshalBinary
+//@   assigns $rejected
+//@   ensures $rejected > old($rejected) ==> result != nil                                   #C09
+
+//@ func (*buffer).getAny
+//@   loop 0:
+//@     invariant $rejected > old($rejected) ==> b.err != nil                                #C09
+//@     invariant $rejected == old($rejected) ==> b.err == old(b.err)                        #C09
+//@     -- (d) an identifier that is neither in this call site's table nor User Property / Subscription Identifier is refused
+//@     latch !(haskey(fields, id) || id == 38 || id == 11) ==> b.err != nil                 #C09
+
+//@ func (*UserProp).UnmarshalBinary
+//@   let l1 = int(specU16(data[0], data[1]))
+//@   ensures len(data) < 4 ==> result != nil                                                #C09
+//@   ensures len(data) >= 2 && len(data) < 4 + l1 ==> result != nil                         #C09
+//@   ensures len(data) >= 4 + l1 && len(data) < 4 + l1 + int(specU16(data[2+l1], data[3+l1])) ==> result != nil   #C09
+
+//@ func (*fixedHeader).ReadRemaining
+//@   ensures $rejected > old($rejected) ==> result0 == nil && result1 != nil                #C09
